@@ -34,7 +34,7 @@ def write_baseline(chk):
     base = json.load(open(p)) if os.path.exists(p) else {}
     for u in chk.unit_results:
         if "abstracted" in u:
-            base[u["unit"]] = u["abstracted"]
+            base[u["unit"]] = sorted(set(u["abstracted"]) | {"lib:" + x for x in u.get("lib", [])})
     json.dump(base, open(p, "w"), indent=1, sort_keys=True)
     pl = os.path.join(ROOT, "baseline", "loops.json")
     loops = json.load(open(pl)) if os.path.exists(pl) else {}
